@@ -1,4 +1,5 @@
 import Flowjaxv.Proofs.Leaves
+import Flowjaxv.Proofs.Rqs
 /-!
 # C01 — every bijection is invertible: inverse undoes transform, both ways
 
@@ -44,6 +45,23 @@ theorem leakytanh_branch_agree {m : ℝ} (hm : 0 < m) (x : ℝ) :
     ((LeakyTanh.init m).max_val ≤ |x|) ↔
       (Real.tanh (LeakyTanh.init m).max_val ≤ |(LeakyTanh.init m).transform x|) :=
   Leaves.leaky_branch_agree (Leaves.leaky_init_wf hm) x
+
+/-- Rational-quadratic spline, any parameters the constructor can produce (`Rqs.RqsWF`: knots
+strictly increasing from one interval end to the other, derivatives > 0): `inverse (transform x) = x`
+and `transform (inverse y) = y` for EVERY real x, y — bin interiors, exactly on a knot, exactly on
+either interval end (the input on which the pinned tree failed, defect D1), and outside. -/
+theorem rqs_lawful {C : Type} {p : RationalQuadraticSpline ℝ} (h : Rqs.RqsWF p) :
+    (p.toBij : Bij ℝ C ℝ).Lawful univ univ := Rqs.rqs_lawful h
+
+theorem rqs_left_inverse {p : RationalQuadraticSpline ℝ} (h : Rqs.RqsWF p) (x : ℝ) :
+    p.inverse (p.transform x) = x := Rqs.rqs_left h x
+
+theorem rqs_right_inverse {p : RationalQuadraticSpline ℝ} (h : Rqs.RqsWF p) (y : ℝ) :
+    p.transform (p.inverse y) = y := Rqs.rqs_right h y
+
+/-- non-vacuity: a concrete 3-bin spline on [-2,2] with boundary derivative 2 (the D1 witness) -/
+theorem rqs_instance : (Rqs.exampleSpline.toBij : Bij ℝ Unit ℝ).Lawful univ univ :=
+  Rqs.rqs_lawful Rqs.rqsWF_instance
 
 /-- Chain of typed-composable lawful bijections is lawful — any length; since the children
 may themselves be chains/inverts, any expression tree of any depth. -/
